@@ -12,10 +12,59 @@ pub trait LiteDisplay {
     fn lite_fmt<W: Write + ?Sized>(&self, w: &mut W) -> Result;
 }
 pub trait LiteDecPad0 {
+    /// `{:0N}`
     fn lite_dec_pad0<W: Write + ?Sized>(&self, width: usize, w: &mut W) -> Result;
+    /// number of characters `{}` would write (sign included)
+    fn lite_dec_len(&self) -> usize;
+    /// `{:N}` / `{:>N}`: numbers are right-aligned, padded with spaces
+    fn lite_dec_pad_space<W: Write + ?Sized>(&self, width: usize, w: &mut W) -> Result {
+        let mut pad = width.saturating_sub(self.lite_dec_len());
+        while pad > 0 {
+            w.write_str(" ")?;
+            pad -= 1;
+        }
+        self.lite_dec_pad0(0, w)
+    }
+    /// `{:<N}`
+    fn lite_dec_pad_left_aligned<W: Write + ?Sized>(&self, width: usize, w: &mut W) -> Result {
+        self.lite_dec_pad0(0, w)?;
+        let mut pad = width.saturating_sub(self.lite_dec_len());
+        while pad > 0 {
+            w.write_str(" ")?;
+            pad -= 1;
+        }
+        Ok(())
+    }
 }
 pub trait LiteUpperHex {
+    /// `{:0NX}` (and `{:X}` with width 0)
     fn lite_upper_hex_pad0<W: Write + ?Sized>(&self, width: usize, w: &mut W) -> Result;
+    /// `{:0Nx}` (and `{:x}` with width 0)
+    fn lite_lower_hex_pad0<W: Write + ?Sized>(&self, width: usize, w: &mut W) -> Result;
+}
+
+// ---- `{}` dispatch: LiteDisplay if implemented, else core::fmt::Display when the destination is a
+// core::fmt::Formatter (autoref specialisation; used for `write!(f, "{date}")` inside Display impls
+// of the re-rooted crate, whose types cannot implement LiteDisplay) ----
+pub struct Wrap<'a, T: ?Sized>(pub &'a T);
+
+pub trait ViaLite<W: ?Sized> {
+    fn lite_go(&self, w: &mut W) -> Result;
+}
+impl<T: LiteDisplay + ?Sized, W: Write + ?Sized> ViaLite<W> for Wrap<'_, T> {
+    #[inline]
+    fn lite_go(&self, w: &mut W) -> Result {
+        self.0.lite_fmt(w)
+    }
+}
+pub trait ViaDisplay<W: ?Sized> {
+    fn lite_go(&self, w: &mut W) -> Result;
+}
+impl<'f, T: core::fmt::Display + ?Sized> ViaDisplay<core::fmt::Formatter<'f>> for &Wrap<'_, T> {
+    #[inline]
+    fn lite_go(&self, f: &mut core::fmt::Formatter<'f>) -> Result {
+        core::fmt::Display::fmt(self.0, f)
+    }
 }
 
 impl<T: LiteDisplay + ?Sized> LiteDisplay for &T {
@@ -27,10 +76,16 @@ impl<T: LiteDecPad0 + ?Sized> LiteDecPad0 for &T {
     fn lite_dec_pad0<W: Write + ?Sized>(&self, width: usize, w: &mut W) -> Result {
         (**self).lite_dec_pad0(width, w)
     }
+    fn lite_dec_len(&self) -> usize {
+        (**self).lite_dec_len()
+    }
 }
 impl<T: LiteUpperHex + ?Sized> LiteUpperHex for &T {
     fn lite_upper_hex_pad0<W: Write + ?Sized>(&self, width: usize, w: &mut W) -> Result {
         (**self).lite_upper_hex_pad0(width, w)
+    }
+    fn lite_lower_hex_pad0<W: Write + ?Sized>(&self, width: usize, w: &mut W) -> Result {
+        (**self).lite_lower_hex_pad0(width, w)
     }
 }
 
@@ -56,9 +111,19 @@ impl LiteDisplay for bool {
 }
 
 const DIGIT_STR: [&str; 16] = ["0", "1", "2", "3", "4", "5", "6", "7", "8", "9", "A", "B", "C", "D", "E", "F"];
+const DIGIT_STR_LOWER: [&str; 16] = ["0", "1", "2", "3", "4", "5", "6", "7", "8", "9", "a", "b", "c", "d", "e", "f"];
+
+fn dec_len_u128(mut v: u128, negative: bool) -> usize {
+    let mut n = 1;
+    while v >= 10 {
+        v /= 10;
+        n += 1;
+    }
+    n + if negative { 1 } else { 0 }
+}
 
 /// `{:0WX}` of a value that fits in 32 bits: nibble shifts, no division (8 iterations)
-fn write_hex_u32<W: Write + ?Sized>(v: u32, width: usize, w: &mut W) -> Result {
+fn write_hex_u32<W: Write + ?Sized>(v: u32, width: usize, upper: bool, w: &mut W) -> Result {
     let mut extra = width.saturating_sub(8);
     while extra > 0 {
         w.write_str("0")?;
@@ -71,7 +136,7 @@ fn write_hex_u32<W: Write + ?Sized>(v: u32, width: usize, w: &mut W) -> Result {
         let nib = ((v >> (4 * i)) & 0xF) as usize;
         if nib != 0 || started || i < width || i == 0 {
             started = true;
-            w.write_str(DIGIT_STR[nib])?;
+            w.write_str(if upper { DIGIT_STR[nib] } else { DIGIT_STR_LOWER[nib] })?;
         }
     }
     Ok(())
@@ -142,9 +207,11 @@ macro_rules! small_unsigned {
         }
         impl LiteDecPad0 for $t {
             fn lite_dec_pad0<W: Write + ?Sized>(&self, width: usize, w: &mut W) -> Result { write_dec_u32(*self as u32, false, width, w) }
+            fn lite_dec_len(&self) -> usize { dec_len_u128(*self as u128, false) }
         }
         impl LiteUpperHex for $t {
-            fn lite_upper_hex_pad0<W: Write + ?Sized>(&self, width: usize, w: &mut W) -> Result { write_hex_u32(*self as u32, width, w) }
+            fn lite_upper_hex_pad0<W: Write + ?Sized>(&self, width: usize, w: &mut W) -> Result { write_hex_u32(*self as u32, width, true, w) }
+            fn lite_lower_hex_pad0<W: Write + ?Sized>(&self, width: usize, w: &mut W) -> Result { write_hex_u32(*self as u32, width, false, w) }
         }
     )*};
 }
@@ -155,6 +222,7 @@ macro_rules! small_signed {
         }
         impl LiteDecPad0 for $t {
             fn lite_dec_pad0<W: Write + ?Sized>(&self, width: usize, w: &mut W) -> Result { write_dec_u32((*self as i64).unsigned_abs() as u32, *self < 0, width, w) }
+            fn lite_dec_len(&self) -> usize { dec_len_u128((*self as i64).unsigned_abs() as u128, *self < 0) }
         }
     )*};
 }
@@ -165,6 +233,7 @@ macro_rules! wide_unsigned {
         }
         impl LiteDecPad0 for $t {
             fn lite_dec_pad0<W: Write + ?Sized>(&self, width: usize, w: &mut W) -> Result { write_dec_u128(*self as u128, false, width, w) }
+            fn lite_dec_len(&self) -> usize { dec_len_u128(*self as u128, false) }
         }
     )*};
 }
@@ -175,6 +244,7 @@ macro_rules! wide_signed {
         }
         impl LiteDecPad0 for $t {
             fn lite_dec_pad0<W: Write + ?Sized>(&self, width: usize, w: &mut W) -> Result { write_dec_u128((*self as i128).unsigned_abs(), *self < 0, width, w) }
+            fn lite_dec_len(&self) -> usize { dec_len_u128((*self as i128).unsigned_abs(), *self < 0) }
         }
     )*};
 }
@@ -283,5 +353,65 @@ impl<const N: usize> Write for FixedBuf<N> {
             i += 1;
         }
         Ok(())
+    }
+}
+
+// ---- `format!` replacement: a stack string (no heap; `String` growth paths alone exhaust CBMC) ---
+
+/// What the shadowed `format!` returns in the re-rooted crates: derefs to `str`, so
+/// `format!(..).trim_end_matches('0')` and friends work unchanged.  Capacity 64 bytes; a longer
+/// text is a formatting error (reported by the harness as a failed write).
+pub struct StackString {
+    b: [u8; 64],
+    len: usize,
+    pub overflow: bool,
+}
+
+impl StackString {
+    pub const fn new() -> Self {
+        Self { b: [0; 64], len: 0, overflow: false }
+    }
+}
+
+impl Default for StackString {
+    fn default() -> Self {
+        Self::new()
+    }
+}
+
+impl Write for StackString {
+    fn write_str(&mut self, s: &str) -> Result {
+        let bytes = s.as_bytes();
+        let mut i = 0;
+        while i < bytes.len() {
+            if self.len >= 64 {
+                self.overflow = true;
+                return Err(core::fmt::Error);
+            }
+            self.b[self.len] = bytes[i];
+            self.len += 1;
+            i += 1;
+        }
+        Ok(())
+    }
+}
+
+impl core::ops::Deref for StackString {
+    type Target = str;
+    fn deref(&self) -> &str {
+        // SAFETY: only whole `&str`s are ever appended
+        unsafe { core::str::from_utf8_unchecked(&self.b[..self.len]) }
+    }
+}
+
+impl LiteDisplay for StackString {
+    fn lite_fmt<W: Write + ?Sized>(&self, w: &mut W) -> Result {
+        w.write_str(self)
+    }
+}
+
+impl core::fmt::Display for StackString {
+    fn fmt(&self, f: &mut core::fmt::Formatter<'_>) -> Result {
+        f.write_str(self)
     }
 }
